@@ -22,6 +22,8 @@ def gen_case(rng, cid, tier):
     now = T0
     npanic = 0
     nrev = 0
+    last_ts = {}
+    nonmono = [0]
     maxp = rng.choice([1, 1, 2, 3])
     for k in range(n):
         idx += 1
@@ -72,7 +74,17 @@ def gen_case(rng, cid, tier):
                                                    "PING x", "AWAY :gone", "MODE " + ch + " +t", "NAMES " + ch])
             if rng.random() < 0.06 and spec.startswith("I") and " NICK " not in spec and " USER " not in spec:
                 kind = "m"      # already marked in the log
-        entries.append({"idx": idx, "kind": kind, "ts": now, "exp": exp, "rev": erev, "spec": spec})
+        ts = now
+        m = re.match(r"[IP](\d+) ", spec)
+        if m:
+            # timestamps are assigned by the leader that accepted the message: after a leader change they can be equal
+            # to or older than the previous message of the same session (small skew, or a badly set clock)
+            sid = int(m.group(1))
+            if sid in last_ts and rng.random() < 0.3:
+                ts = max(1, last_ts[sid] - rng.choice([0, 1, 5 * S, 90 * S, 2 * 3600 * S]))
+                nonmono[0] += 1
+            last_ts[sid] = ts
+        entries.append({"idx": idx, "kind": kind, "ts": ts, "exp": exp, "rev": erev, "spec": spec})
     if entries[0]["kind"] == "i":
         entries[0] = {"idx": 1, "kind": "c", "ts": T0, "exp": None, "spec": "C"}
     return {"id": cid, "proto": 1 if rng.random() < 0.65 else 0, "entries": entries}
@@ -248,6 +260,15 @@ def run(ck, replay):
         dist["json_cases"] += 1 if c["proto"] == 0 else 0
         dist["premarked"] += sum(1 for e in c["entries"] if e["kind"] == "m")
         dist["panic_not_reached"] += sum(1 for e in c["entries"] if e["spec"].startswith("I") and "PANIC" in e["spec"])
+        seen_ts = {}
+        for e in c["entries"]:
+            m = re.match(r"[IP](\d+) ", e["spec"])
+            if m:
+                sid = m.group(1)
+                if sid in seen_ts and e["ts"] <= seen_ts[sid]:
+                    key = "crashing_entries_not_newer_than_previous_of_session" if e["spec"].startswith("P") else "ordinary_entries_not_newer_than_previous_of_session"
+                    dist[key] = dist.get(key, 0) + 1
+                seen_ts[sid] = e["ts"]
         for k, e in enumerate(c["entries"]):
             if e["spec"].startswith("P"):
                 f = k / max(1, len(c["entries"]))
@@ -260,7 +281,8 @@ def run(ck, replay):
     ck.cov["traces_validated_against_impl"] = len(cases)
     ck.cov["rule"] = ("logs of 8-40 entries (12% raft-internal gaps, 2-4 sessions, Config, DeleteSession, 4% entries already marked), 0-3 PANIC "
                       "entries at random positions from a logged-in session (handler reached), an unregistered session or a deleted session "
-                      "(handler not reached); protobuf (65%) and legacy JSON encoding; every case: child processes until a clean run, then "
+                      "(handler not reached); 30% of the client messages carry a timestamp equal to or older than the previous message of their session "
+                      "(0, 1 ns, 5 s, 90 s, 2 h); protobuf (65%) and legacy JSON encoding; every case: child processes until a clean run, then "
                       "replays of the durable log (plain; snapshot+restart before/after the marked entries with fold-all and fold-nothing "
                       "horizons; JSON cases also after the JSON->protobuf conversion of the raft log) against the replay of the log without the marked entries. non-trivial = at least one child died; distinct by case text")
     ck.cov["input_distribution"] = dist
